@@ -391,6 +391,12 @@ Lemma rs_del_sessions h sid : h_sessions (rs_del h sid) = h_sessions h.
 Proof.
   unfold rs_del, rs_set. cbn [N.eqb]. destruct (aget (h_rs1 h) sid); reflexivity.
 Qed.
+Lemma rs_set_sessions h sid rs : h_sessions (rs_set h sid rs) = h_sessions h.
+Proof.
+  unfold rs_set. destruct (N.eqb rs 0).
+  - destruct (aget (h_rs1 h) sid); reflexivity.
+  - destruct (aget (h_rs1 h) sid) as [prev|]; [destruct (N.eqb prev rs)|]; reflexivity.
+Qed.
 Lemma rs_del_rooms h sid : h_rooms (rs_del h sid) = h_rooms h.
 Proof. unfold rs_del, rs_set. cbn [N.eqb]. destruct (aget (h_rs1 h) sid); reflexivity. Qed.
 Lemma rs_del_clears h sid : aget (h_rs1 (rs_del h sid)) sid = None.
@@ -1503,3 +1509,337 @@ Proof.
       cbn [fst]. rewrite (fst_eq _ _ _ H3). apply wf_fold_sessions; [exact W2|]. intros. now apply wf_send_session.
   - cbn [fst]. eapply wf_equiv; [apply equiv_publish|exact W].
 Qed.
+
+(* ------------------------------------------------------------------ bus deliveries *)
+Lemma wf_revoke xr xp h sid : WFg xr xp h -> WFg xr xp (fst (revoke h sid)).
+Proof. intros W. eapply wf_equiv; [apply equiv_revoke|exact W]. Qed.
+
+Lemma wf_deliver_pub h p : WF h -> WF (fst (deliver_pub h p)).
+Proof.
+  unfold WF. intros W. unfold deliver_pub.
+  destruct (p_subj p) as [b r|b r|b u|sid|]; destruct (p_msg p) as [m sender co|m|sj internal|pm| |q]; try exact W.
+  - apply wf_fold_sessions; [exact W|]. intros. now apply wf_recv_event.
+  - apply wf_fold_sessions; [exact W|]. intros. now apply wf_recv_event.
+  - (* session joined *)
+    destruct (room_of h (b, r)) as [rm|]; [|exact W].
+    match goal with |- context [match ?o with [] => _ | _ => _ end] => destruct o end; [exact W|]. cbn [fst].
+    match goal with |- WFg _ _ (fold_left ?f ?l ?h0) => apply (wf_fold_left_hub (WFg none2 none1) f l h0) end.
+    + eapply wf_equiv; [apply equiv_publish|exact W].
+    + intros hh x Hhh. destruct (get_sess hh x) as [sx|]; [|exact Hhh].
+      destruct (is_virtual (s_kind sx) && negb (N.eqb (s_flags sx) 0)); [|exact Hhh].
+      eapply wf_equiv; [apply equiv_publish|exact Hhh].
+  - now apply wf_room_request.
+  - apply wf_fold_sessions; [exact W|]. intros. now apply wf_recv_event.
+  - destruct (get_sess h sid) as [s|]; [|exact W]. destruct (is_virtual (s_kind s)); [exact W|]. now apply wf_recv_event.
+  - destruct (get_sess h sid) as [s|]; [|exact W]. destruct (is_virtual (s_kind s)); [exact W|]. now apply wf_recv_event.
+  - (* permissions *)
+    destruct (get_sess h sid) as [s|] eqn:Hs; [|exact W]. destruct (is_virtual (s_kind s)); [exact W|].
+    apply wf_revoke. eapply wf_equiv; [apply equiv_put with s; [exact Hs|reflexivity]|exact W].
+  - (* kick through the bus *)
+    destruct (get_sess h sid) as [s|]; [|exact W]. destruct (is_virtual (s_kind s)); [exact W|].
+    destruct (leave_room h sid false) as [h1 o1] eqn:H1.
+    destruct (send_session h1 sid (SBye B_room_session_reconnected)) as [h2 o2] eqn:H2.
+    destruct (close_session h2 sid) as [h3 o3] eqn:H3. cbn [fst].
+    rewrite (fst_eq _ _ _ H3). apply wf_close_session. rewrite (fst_eq _ _ _ H2). apply wf_send_session.
+    rewrite (fst_eq _ _ _ H1). now apply wf_leave_room.
+Qed.
+
+Lemma wf_deliver_at h pos : WF h -> WF (fst (deliver_at h pos)).
+Proof.
+  intros W. unfold deliver_at. destruct (take_nth pos (h_bus h)) as [[p rest]|]; [|exact W].
+  apply wf_deliver_pub. unfold WF. eapply wf_equiv; [apply equiv_bus|exact W].
+Qed.
+
+Lemma wf_do_api h b room q : WF h -> WF (fst (do_api h b room q)).
+Proof.
+  unfold WF. intros W. unfold do_api.
+  assert (Hpub : forall hh s m, WFg none2 none1 hh -> WFg none2 none1 (publish hh s m)).
+  { intros. eapply wf_equiv; [apply equiv_publish|assumption]. }
+  destruct q as [|users rs|tag|l|l|ic|tag]; cbn [fst]; auto.
+  - match goal with |- WFg _ _ (fold_left ?f ?l ?h0) => apply (wf_fold_left_hub (WFg none2 none1) f l h0) end.
+    + match goal with |- WFg _ _ (fold_left ?f ?l ?h0) => apply (wf_fold_left_hub (WFg none2 none1) f l h0) end; auto.
+    + intros hh x Hhh. destruct (aget (h_rs2 hh) (1000000 + x)); auto.
+  - match goal with |- context [match ?o with [] => _ | _ => _ end] => destruct o end; cbn [fst]; auto.
+    apply Hpub. match goal with |- WFg _ _ (fold_left ?f ?l ?h0) => apply (wf_fold_left_hub (WFg none2 none1) f l h0) end; auto.
+    intros hh [[i icv] pm] Hhh. destruct i; auto. destruct pm; auto.
+  - match goal with |- context [match ?o with [] => _ | _ => _ end] => destruct o end; cbn [fst]; auto.
+Qed.
+
+Lemma wf_do_tick h secs : WF h -> WF (fst (do_tick h secs)).
+Proof.
+  unfold WF. intros W. unfold do_tick.
+  match goal with |- context [let '(h1, o1) := ?X in _] => destruct X as [h1 o1] eqn:H1 end.
+  assert (W1 : WFg none2 none1 h1).
+  { destruct (30 <? secs); [|injection H1 as <- <-; exact W].
+    rewrite (fst_eq _ _ _ H1). apply wf_fold_sessions; [exact W|]. intros. now apply wf_close_session. }
+  match goal with |- context [let '(h2, o2) := ?X in _] => destruct X as [h2 o2] eqn:H2 end.
+  assert (W2 : WFg none2 none1 h2).
+  { destruct (10 <? secs); [|injection H2 as <- <-; exact W1].
+    rewrite (fst_eq _ _ _ H2). apply wf_fold_sessions; [exact W1|]. intros hh sid Hhh.
+    destruct (get_sess hh sid) as [s|]; [|exact Hhh].
+    match goal with |- context [let '(h3, o3) := ?X in _] => destruct X as [h3 o3] eqn:H3 end.
+    assert (W3 : WFg none2 none1 h3).
+    { destruct (s_conn s); [|injection H3 as <- <-; exact Hhh]. rewrite (fst_eq _ _ _ H3). now apply wf_send_conn. }
+    destruct (close_session h3 sid) as [h4 o4] eqn:H4. cbn [fst]. rewrite (fst_eq _ _ _ H4). now apply wf_close_session. }
+  match goal with |- context [let '(h3, o3) := ?X in _] => destruct X as [h3 o3] eqn:H3 end.
+  cbn [fst]. destruct (2 <? secs); [|injection H3 as <- <-; exact W2].
+  rewrite (fst_eq _ _ _ H3). apply wf_fold_sessions; [exact W2|]. intros. now apply wf_send_conn.
+Qed.
+
+(* ------------------------------------------------------------------ virtual sessions *)
+Lemma wf_close_one_noninternal h x :
+  WF h -> (forall sx, get_sess h x = Some sx -> is_internal (s_kind sx) = false) -> WF (fst (close_one h x)).
+Proof.
+  unfold WF. intros W Hx.
+  apply (wf_drop_exception none2 none1 _ x); [now apply wf_close_one|].
+  intros vs s v Hs Hk.
+  assert (Hne : vs <> x) by (intros ->; rewrite close_one_gone in Hs; discriminate).
+  pose proof (close_one_core h x vs Hne) as Hq. rewrite Hs in Hq. cbn in Hq.
+  destruct (get_sess h vs) as [s0|] eqn:Hs0; [|discriminate]. cbn in Hq. apply core_some_eq in Hq as (_ & Hq & _).
+  destruct (wf_parent _ _ h W vs s0 x v Hs0 ltac:(congruence)) as [[]|[ps [Hps Hpi]]].
+  rewrite (Hx ps Hps) in Hpi. discriminate.
+Qed.
+
+Lemma wf_set_vt h p v vs s :
+  WF h -> get_sess h vs = Some s -> s_kind s = KVirtual p v -> WF (set_vtable h (pset (h_vtable h) (p, v) vs)).
+Proof.
+  unfold WF. intros W Hs Hk. constructor; try apply W.
+  intros p' v' vs'. hsimpl. rewrite pget_pset. destruct (pair_eqb_spec (p', v') (p, v)) as [Heq|]; [|apply (wf_vt _ _ h W)].
+  injection Heq as -> ->. intros H. injection H as <-. eauto.
+Qed.
+
+Lemma wf_del_vt h k : WF h -> WF (set_vtable h (pdel (h_vtable h) k)).
+Proof.
+  unfold WF. intros W. constructor; try apply W.
+  intros p v vs. hsimpl. rewrite pget_pdel. destruct (pair_eqb (p, v) k); [discriminate|apply (wf_vt _ _ h W)].
+Qed.
+
+Lemma aset_aset {V} (l : alist V) k v0 v : aset (aset l k v0) k v = aset l k v.
+Proof.
+  induction l as [|[k' v'] r IH]; cbn; [now rewrite N.eqb_refl|].
+  destruct (N.eqb_spec k k'); cbn; [now rewrite N.eqb_refl|]. destruct (N.eqb_spec k k'); [contradiction|]. now rewrite IH.
+Qed.
+
+Lemma wf_do_internal h c sid s q :
+  WF h -> get_sess h sid = Some s -> is_internal (s_kind s) = true -> WF (fst (do_internal h c sid s q)).
+Proof.
+  unfold WF. intros W Hs Hint. unfold do_internal.
+  assert (Hpub : forall hh sj m, WFg none2 none1 hh -> WFg none2 none1 (publish hh sj m)).
+  { intros. eapply wf_equiv; [apply equiv_publish|assumption]. }
+  destruct q as [v rn user flags incall|v rn flags incall|v rn|ic].
+  - (* add *)
+    set (k := (s_backend s, rn)). destruct (room_of h k) as [r|] eqn:Hr; [|exact W].
+    set (vs := next_id h). set (h0 := set_nextsid h vs).
+    assert (W0 : WFg none2 none1 h0) by (eapply wf_equiv; [apply equiv_nextsid|exact W]).
+    assert (Hfresh : get_sess h0 vs = None) by (exact (next_id_fresh h)).
+    match goal with |- context [mksess (s_backend s) (KVirtual sid v) user (Some k) ?rsv None None [] [] 0 ?ic ?fl [] [] [] 0] =>
+      set (vsess := mksess (s_backend s) (KVirtual sid v) user (Some k) rsv None None [] [] 0 ic fl [] [] [] 0);
+      set (vsess0 := mksess (s_backend s) (KVirtual sid v) user None rsv None None [] [] 0 ic fl [] [] [] 0) end.
+    set (r' := mkroom (nadd vs (r_members r)) (r_incall r) (r_sessdata r) (r_transient r) (r_props r)).
+    set (h1 := put_sess (set_rooms h0 (pset (h_rooms h0) k r')) vs vsess).
+    assert (W1 : WFg none2 none1 h1).
+    { assert (WA : WFg none2 none1 (put_sess h0 vs vsess0)).
+      { apply wf_new_session; auto. intros p v' Hk. injection Hk as <- <-. right. exists s. auto. }
+      assert (E : h1 = put_sess (set_rooms (put_sess h0 vs vsess0) (pset (h_rooms (put_sess h0 vs vsess0)) k r')) vs vsess).
+      { unfold h1, put_sess. hsimpl. now rewrite aset_aset. }
+      rewrite E. apply (wf_enter_room _ _ (put_sess h0 vs vsess0) vs vsess0 vsess k r'); auto.
+      - unfold get_sess, put_sess. hsimpl. apply aget_aset_same.
+      - assert (Hro : room_of (put_sess h0 vs vsess0) k = Some r) by exact Hr. rewrite Hro. reflexivity.
+      - assert (Hro : room_of (put_sess h0 vs vsess0) k = Some r) by exact Hr. rewrite Hro. reflexivity. }
+    assert (Hs1 : get_sess h1 vs = Some vsess) by (unfold h1, get_sess, put_sess; hsimpl; apply aget_aset_same).
+    set (h2 := set_vtable h1 (pset (h_vtable h1) (sid, v) vs)).
+    assert (W2 : WFg none2 none1 h2) by (apply (wf_set_vt h1 sid v vs vsess); auto).
+    match goal with |- context [rs_set h2 vs ?x] => set (h5 := rs_set h2 vs x) end.
+    assert (W5 : WFg none2 none1 h5) by (apply (wf_rs_set _ _ h2 vs _ vsess k); auto).
+    match goal with |- context [let '(h10, outs10) := match ?pvx with Some _ => _ | None => _ end in _] => destruct pvx as [pv|] eqn:Hpv end.
+    + match goal with |- context [close_one ?hh pv] => set (h9 := hh) end.
+      assert (W9 : WFg none2 none1 h9).
+      { unfold h9. apply Hpub. destruct (N.eqb _ 0); repeat apply Hpub; exact W5. }
+      destruct (close_one h9 pv) as [h10 o10] eqn:H10. cbn [fst]. rewrite (fst_eq _ _ _ H10).
+      apply wf_close_one_noninternal; [exact W9|].
+      intros sx Hsx.
+      (* pv was the virtual session registered under (sid, v) before *)
+      destruct (wf_vt _ _ h W sid v pv Hpv) as [sp [Hsp Hkp]].
+      assert (Hne : pv <> vs) by (intros ->; unfold vs in Hsp; rewrite (next_id_fresh h) in Hsp; discriminate).
+      assert (Hsame : get_sess h9 pv = get_sess h pv).
+      { assert (Hh5 : h_sessions h5 = h_sessions h2) by apply rs_set_sessions.
+        assert (Hh9 : h_sessions h9 = h_sessions h5).
+        { unfold h9. destruct (N.eqb _ 0); reflexivity. }
+        unfold get_sess. rewrite Hh9, Hh5. unfold h2, h1, put_sess. hsimpl. rewrite aget_aset_other by assumption. reflexivity. }
+      rewrite Hsame, Hsp in Hsx. injection Hsx as <-. rewrite Hkp. reflexivity.
+    + cbn [fst]. apply Hpub. destruct (N.eqb _ 0); repeat apply Hpub; exact W5.
+  - (* update *)
+    set (k := (s_backend s, rn)).
+    destruct (room_of h k) as [r|]; [|exact W]. destruct (pget (h_vtable h) (sid, v)) as [vs|]; [|exact W].
+    destruct (get_sess h vs) as [t|] eqn:Ht; [|exact W]. cbn [fst].
+    match goal with |- context [put_sess h vs ?t1] => set (h1 := put_sess h vs t1) end.
+    assert (W1 : WFg none2 none1 h1) by (eapply wf_equiv; [apply equiv_put with t; [exact Ht|reflexivity]|exact W]).
+    repeat match goal with |- context [if ?c then _ else _] => destruct c end; repeat apply Hpub; try apply wf_set_incall; repeat apply Hpub; exact W1.
+  - (* remove *)
+    set (k := (s_backend s, rn)).
+    destruct (room_of h k) as [r|]; [|exact W]. destruct (pget (h_vtable h) (sid, v)) as [vs|] eqn:Hv; [|exact W].
+    apply wf_close_one_noninternal; [apply wf_del_vt; exact W|].
+    intros sx Hsx. destruct (wf_vt _ _ h W sid v vs Hv) as [sv [Hsv Hkv]].
+    assert (Hsame : get_sess (set_vtable h (pdel (h_vtable h) (sid, v))) vs = get_sess h vs) by reflexivity.
+    rewrite Hsame, Hsv in Hsx. injection Hsx as <-. rewrite Hkv. reflexivity.
+  - (* in-call flags of the internal client itself *)
+    destruct (N.eqb ic (s_incall s)); [exact W|].
+    match goal with |- context [put_sess h sid ?t1] => set (h1 := put_sess h sid t1) end.
+    assert (W1 : WFg none2 none1 h1) by (eapply wf_equiv; [apply equiv_put with s; [exact Hs|reflexivity]|exact W]).
+    destruct (s_room s) as [k|]; [|exact W1].
+    destruct (N.testbit ic 0); [cbn [fst]; apply Hpub; now apply wf_set_incall|].
+    destruct (leave_call (set_incall h1 k sid false) sid) as [h2 o2] eqn:H2. cbn [fst]. apply Hpub.
+    rewrite (fst_eq _ _ _ H2). apply wf_leave_call. now apply wf_set_incall.
+Qed.
+
+(* ------------------------------------------------------------------ media: nothing the invariant reads changes *)
+Lemma equiv_finish_create h tok p ok : equiv h (fst (finish_create h tok p ok)).
+Proof.
+  unfold finish_create.
+  assert (Hsend : forall hh x m, never_closing m = true -> equiv h hh -> equiv h (fst (send_session hh x m))).
+  { intros hh x m Hm E. eapply equiv_trans; [exact E|]. now apply equiv_send_session. }
+  assert (Hcond : forall hh (b : bool) x m, never_closing m = true -> equiv h hh ->
+            equiv h (fst (if b then send_session hh x m else (hh, [])))).
+  { intros hh b x m Hm E. destruct b; [now apply Hsend|exact E]. }
+  destruct ok; cbn [negb].
+  2:{ destruct (send_session h (mp_errto p) (SError E_client_not_found)) as [h1 o1] eqn:H1. cbn [fst].
+      rewrite (fst_eq _ _ _ H1). apply Hsend; [reflexivity|apply equiv_refl]. }
+  destruct (get_sess h (mp_owner p)) as [s|] eqn:Hs; [|apply equiv_refl].
+  destruct (negb (N.eqb (s_rel s) (mp_rel p))).
+  { destruct (send_session h (mp_errto p) (SError E_client_not_found)) as [h1 o1] eqn:H1. cbn [fst].
+    rewrite (fst_eq _ _ _ H1). apply Hsend; [reflexivity|apply equiv_refl]. }
+  destruct (N.eqb (mp_kind p) 0 && negb (offer_allowed (s_perms s) (mp_stream p) (N.land (mp_media p) 3))).
+  { destruct (send_session h (mp_errto p) (SError E_not_allowed)) as [h1 o1] eqn:H1. cbn [fst].
+    rewrite (fst_eq _ _ _ H1). apply Hsend; [reflexivity|apply equiv_refl]. }
+  destruct (N.eqb (mp_kind p) 0).
+  - destruct (aget (s_pubs s) (mp_stream p)).
+    + match goal with |- context [let '(h1, o1) := ?X in _] => destruct X as [h1 o1] eqn:H1 end. cbn [fst].
+      rewrite (fst_eq _ _ _ H1). apply Hcond; [reflexivity|apply equiv_refl].
+    + match goal with |- context [let '(h3, o3) := ?X in _] => destruct X as [h3 o3] eqn:H3 end. cbn [fst].
+      rewrite (fst_eq _ _ _ H3). apply Hcond; [reflexivity|].
+      eapply equiv_trans; [|apply equiv_mcu]. apply equiv_put with s; [exact Hs|reflexivity].
+  - destruct (sub_get s (mp_pubof p) (mp_stream p)).
+    + match goal with |- context [let '(h1, o1) := ?X in _] => destruct X as [h1 o1] eqn:H1 end. cbn [fst].
+      rewrite (fst_eq _ _ _ H1). apply Hcond; [reflexivity|apply equiv_refl].
+    + match goal with |- context [let '(h3, o3) := ?X in _] => destruct X as [h3 o3] eqn:H3 end. cbn [fst].
+      rewrite (fst_eq _ _ _ H3). apply Hcond; [reflexivity|].
+      eapply equiv_trans; [|apply equiv_mcu]. apply equiv_put with s; [exact Hs|reflexivity].
+Qed.
+
+Lemma equiv_start_create h p : equiv h (fst (start_create h p)).
+Proof.
+  unfold start_create. destruct (h_gated h); [cbn [fst]; apply equiv_mcu|].
+  match goal with |- context [let '(h1, o1) := ?X in _] => destruct X as [h1 o1] eqn:H1 end. cbn [fst].
+  rewrite (fst_eq _ _ _ H1). eapply equiv_trans; [apply equiv_mcu|]. apply equiv_finish_create.
+Qed.
+
+Lemma equiv_do_mcudone h tok ok : equiv h (fst (do_mcudone h tok ok)).
+Proof.
+  unfold do_mcudone. destruct (aget (h_mcupending h) tok) as [p|]; [|apply equiv_refl].
+  eapply equiv_trans; [apply equiv_mcu|]. apply equiv_finish_create.
+Qed.
+
+Lemma equiv_do_media h c sid s to mk stream media :
+  get_sess h sid = Some s -> equiv h (fst (do_media h c sid s to mk stream media)).
+Proof.
+  intros Hs. unfold do_media. destruct to as [i|u| |]; try apply equiv_refl.
+  destruct (N.eqb mk 0).
+  - destruct (negb (offer_allowed (s_perms s) stream media)); [apply equiv_refl|].
+    destruct (aget (s_pubs s) stream); [|apply equiv_start_create].
+    eapply equiv_trans; [|apply equiv_send_session; reflexivity]. apply equiv_put with s; [exact Hs|reflexivity].
+  - destruct (N.eqb mk 1).
+    + match goal with |- context [if ?c then _ else _] => destruct c end; [apply equiv_refl|].
+      destruct (negb (same_call h sid s _)); [apply equiv_refl|].
+      destruct (sub_get s _ stream); [apply equiv_send_session; reflexivity|apply equiv_start_create].
+    + destruct (N.eqb mk 2); [|apply equiv_refl].
+      match goal with |- context [if ?c then _ else _] => destruct c end.
+      * destruct (negb (send_allowed (s_perms s) stream)); [apply equiv_refl|]. destruct (aget (s_pubs s) stream); apply equiv_refl.
+      * destruct (sub_get s _ stream); apply equiv_refl.
+Qed.
+
+(* ------------------------------------------------------------------ every step keeps the invariant *)
+Theorem wf_step h o : WF h -> WF (fst (step h o)).
+Proof.
+  unfold WF. intros W.
+  assert (Hws : forall c (f : conn -> N -> session -> hub * list out),
+            (forall cn sid s, aget (h_conns h) c = Some cn -> get_sess h sid = Some s -> WFg none2 none1 (fst (f cn sid s))) ->
+            WFg none2 none1 (fst (with_session h c f))).
+  { intros c f Hf. unfold with_session. destruct (aget (h_conns h) c) as [cn|] eqn:Hc; [|exact W].
+    destruct (c_sess cn) as [sid|]; [|exact W]. destruct (get_sess h sid) as [s|] eqn:Hs; [|exact W]. eauto. }
+  destruct o as [c addr|c hl|c rn rs rep|c to tag|c to tag|c|c|secs|b signas room q|c q|c to mk stream media|tok ok|c kindn key val|pos]; cbn [step].
+  - destruct (aget (h_conns h) c); [exact W|]. cbn [fst]. now apply wf_set_conn_nosess.
+  - destruct (aget (h_conns h) c) as [cn|] eqn:Hc; [|exact W]. destruct (c_sess cn) eqn:Hcs; [exact W|].
+    apply wf_do_hello; [now apply wf_set_conn_nosess|]. hsimpl. apply aget_aset_same.
+  - apply Hws. intros cn sid s Hc Hs.
+    destruct (do_join h c sid s rn rs rep) as [h1 o1] eqn:H1.
+    assert (W1 : WFg none2 none1 h1) by (rewrite (fst_eq _ _ _ H1); now apply wf_do_join).
+    destruct rep as [[pm|] su|code]; try exact W1.
+    destruct (get_sess h1 sid) as [s1|]; [|exact W1].
+    match goal with |- context [if ?cnd then _ else _] => destruct cnd end; [|exact W1].
+    destruct (revoke h1 sid) as [h2 o2] eqn:H2. cbn [fst]. rewrite (fst_eq _ _ _ H2). now apply wf_revoke.
+  - apply Hws. intros. now apply wf_do_message.
+  - apply Hws. intros cn sid s Hc Hs. destruct (allowed_control s); [now apply wf_do_message|exact W].
+  - destruct (aget (h_conns h) c) as [cn|]; [|exact W]. destruct (c_sess cn); [now apply wf_send_conn|exact W].
+  - (* the connection is cut *)
+    destruct (aget (h_conns h) c) as [cn|] eqn:Hc; [|exact W].
+    pose proof (wf_del_conn _ _ h c W) as W1.
+    destruct (c_sess cn) as [sid|] eqn:Hcs; [|exact W1].
+    destruct (get_sess (set_conns h (adel (h_conns h) c)) sid) as [s|] eqn:Hs; [|exact W1]. cbn [fst].
+    assert (W2 : WFg none2 none1 (put_sess (set_conns h (adel (h_conns h) c)) sid (sess_conn s None))).
+    { apply wf_sess_conn_none; [exact W1|exact Hs|].
+      intros c' cn'. hsimpl. rewrite aget_adel. destruct (N.eqb_spec c' c) as [->|Hne]; [discriminate|]. intros Hc' Hx.
+      destruct (wf_conns _ _ h W c cn sid Hc Hcs) as [s1 [Hs1 Hc1]].
+      destruct (wf_conns _ _ h W c' cn' sid Hc' Hx) as [s2 [Hs2 Hc2]]. rewrite Hs1 in Hs2. injection Hs2 as <-. congruence. }
+    set (h2 := put_sess (set_conns h (adel (h_conns h) c)) sid (sess_conn s None)) in *.
+    assert (W3 : WFg none2 none1 (set_clients h2 (nrem sid (h_clients h2)))).
+    { apply wf_set_clients; [exact W2|]. intros x Hx. apply (wf_clients _ _ _ W2). eapply in_nrem; eauto. }
+    apply wf_set_expired; [exact W3|]. intros x Hx. apply in_nadd in Hx as [->|Hx]; [|apply (wf_expired _ _ _ W3 x Hx)].
+    exists (sess_conn s None). unfold h2, get_sess, put_sess. hsimpl. apply aget_aset_same.
+  - now apply wf_do_tick.
+  - destruct (negb (N.eqb b signas) || (h_nb h <=? b)); [exact W|]. now apply wf_do_api.
+  - apply Hws. intros cn sid s Hc Hs. destruct (is_internal (s_kind s)) eqn:Hi; [now apply wf_do_internal|exact W].
+  - apply Hws. intros cn sid s Hc Hs. eapply wf_equiv; [now apply equiv_do_media|exact W].
+  - eapply wf_equiv; [apply equiv_do_mcudone|exact W].
+  - (* transient data *)
+    apply Hws. intros cn sid s Hc Hs. destruct (s_room s) as [k|]; [|exact W].
+    destruct (negb (allowed_transient s)); [exact W|]. destruct (room_of h k) as [r|] eqn:Hr; [|exact W].
+    assert (Hupd : forall tr, WFg none2 none1 (set_rooms h (pset (h_rooms h) k (mkroom (r_members r) (r_incall r) (r_sessdata r) tr (r_props r))))).
+    { intros tr. apply (wf_room_update _ _ h k r); auto. cbn [r_incall]. intros m. apply (wf_incall _ _ h W k r m Hr). }
+    destruct (N.eqb kindn 0).
+    + destruct (aget (r_transient r) key) as [v|].
+      * destruct (N.eqb v val); [exact W|]. apply wf_fold_sessions; [apply Hupd|]. intros. now apply wf_send_session.
+      * apply wf_fold_sessions; [apply Hupd|]. intros. now apply wf_send_session.
+    + destruct (aget (r_transient r) key); [|exact W]. apply wf_fold_sessions; [apply Hupd|]. intros. now apply wf_send_session.
+  - now apply wf_deliver_at.
+Qed.
+
+Lemma wf_drain fuel : forall h, WF h -> WF (fst (drain fuel h)).
+Proof.
+  induction fuel as [|f IH]; intros h W; cbn [drain]; [exact W|].
+  destruct (h_bus h); [exact W|].
+  destruct (deliver_at h 0) as [h1 o1] eqn:H1. destruct (drain f h1) as [h2 o2] eqn:H2. cbn [fst].
+  rewrite (fst_eq _ _ _ H2). apply IH. rewrite (fst_eq _ _ _ H1). now apply wf_deliver_at.
+Qed.
+
+Theorem wf_qstep h o : WF h -> WF (fst (qstep h o)).
+Proof.
+  intros W. unfold qstep. destruct (step h o) as [h1 o1] eqn:H1. destruct (drain 500 h1) as [h2 o2] eqn:H2. cbn [fst].
+  rewrite (fst_eq _ _ _ H2). apply wf_drain. rewrite (fst_eq _ _ _ H1). now apply wf_step.
+Qed.
+
+(* every history, every delivery order: ODeliver is an op, so a history is any interleaving of
+   client / backend / clock ops with deliveries of queued publications in any order *)
+Fixpoint run (h : hub) (ops : list op) : hub :=
+  match ops with [] => h | o :: r => run (fst (step h o)) r end.
+Fixpoint qrun (h : hub) (ops : list op) : hub :=
+  match ops with [] => h | o :: r => qrun (fst (qstep h o)) r end.
+
+Theorem wf_run ops : forall h, WF h -> WF (run h ops).
+Proof. induction ops as [|o r IH]; intros h W; cbn [run]; [exact W|]. apply IH. now apply wf_step. Qed.
+Theorem wf_qrun ops : forall h, WF h -> WF (qrun h ops).
+Proof. induction ops as [|o r IH]; intros h W; cbn [qrun]; [exact W|]. apply IH. now apply wf_qstep. Qed.
+
+Corollary wf_reachable limits gated ops : WF (run (init limits gated) ops).
+Proof. apply wf_run. apply wf_init. Qed.
+Corollary wf_reachable_q limits gated ops : WF (qrun (init limits gated) ops).
+Proof. apply wf_qrun. apply wf_init. Qed.
